@@ -2,55 +2,63 @@ package main
 
 import (
 	"fmt"
-	"time"
+	"math/rand"
+	"os"
+	"sort"
 
 	"verif/harness/internal/drv"
-	"verif/harness/internal/dvc"
+	"verif/harness/internal/mixed"
 )
 
-func main() {
-	drv.Main("C00", "exploration", func(c *drv.Ctx) error {
-		bin, err := c.Build("dvidw", "")
+// throwaway experiment driver: labelmap-only mixed workload with history reads until the worker dies
+func main() { drv.Main("C20", "exploration", run) }
+
+func run(c *drv.Ctx) error {
+	bin, err := c.Build("dvidw", "")
+	if err != nil {
+		return err
+	}
+	dir, _ := c.NewDataDir("dup", drv.ConfOpts{})
+	w, err := drv.StartWorker(bin, dir, drv.StartOpts{})
+	if err != nil {
+		return err
+	}
+	wd, err := mixed.New(w, rand.New(rand.NewSource(5)), mixed.Opts{Types: []string{"lm"}, Tag: "x"})
+	if err != nil {
+		return err
+	}
+	u := wd.Root
+	bodies := wd.Bodies(u)
+	var bl []uint64
+	for b := range bodies {
+		bl = append(bl, b)
+	}
+	sort.Slice(bl, func(i, j int) bool { return bl[i] < bl[j] })
+	c.Case("a", true)
+	c.Case("b", true)
+	base := "/api/node/" + u + "/lm/"
+	body := []byte(fmt.Sprintf("[%d,%d]", bl[0], bl[1]))
+	for _, variant := range []string{"seq", "par"} {
+		if variant == "seq" {
+			for i := 0; i < 2; i++ {
+				r, err := w.Post(base+"merge", body)
+				fmt.Fprintln(os.Stderr, "merge", string(body), "=>", r.Status, drv.Trunc(string(r.Body), 100), err)
+			}
+		} else {
+			body = []byte(fmt.Sprintf("[%d,%d]", bl[2], bl[3]))
+			rs, err := w.Par([]drv.Req{{Method: "POST", URL: base + "merge", Body: body}, {Method: "POST", URL: base + "merge", Body: body}, {Method: "POST", URL: base + "merge", Body: body}})
+			for _, r := range rs {
+				fmt.Fprintln(os.Stderr, "par merge", string(body), "=>", r.Status, drv.Trunc(string(r.Body), 100))
+			}
+			fmt.Fprintln(os.Stderr, err)
+		}
+		w.Settle()
+		r, err := w.Get(fmt.Sprintf("%shistory/%d/%s/%s", base, bl[0], u, u))
+		fmt.Fprintln(os.Stderr, variant, "history =>", r.Status, drv.Trunc(string(r.Body), 200), err)
 		if err != nil {
-			return err
+			fmt.Fprintln(os.Stderr, drv.Trunc(drv.FatalInStderr(w.Stderr()), 400))
+			return nil
 		}
-		dir, _ := c.NewDataDir("d1", drv.ConfOpts{})
-		w, err := drv.StartWorker(bin, dir, drv.StartOpts{})
-		if err != nil {
-			return err
-		}
-		cl := &dvc.Client{W: w}
-		main, _ := cl.NewRepo("main")
-		cl.NewInstance(main, "keyvalue", "kv", nil)
-		side, _ := cl.NewRepo("side")
-		cl.NewInstance(side, "keyvalue", "skv", nil)
-		w.Post("/api/node/"+side+"/skv/key/k", []byte("side"))
-		cl.Commit(side)
-		ch, _ := cl.NewVersion(side)
-		fmt.Println("side", side[:8], "child", ch[:8])
-		err = w.API("rpc.repo_delete", map[string]string{"uuid": side}, nil)
-		fmt.Println("delete:", err)
-		time.Sleep(500 * time.Millisecond)
-		// something else happens in the main repo
-		w.Post("/api/node/"+main+"/kv/key/a", []byte("1"))
-		cl.Commit(main)
-		cl.NewVersion(main)
-		repos, _, _ := cl.Repos()
-		fmt.Println("repos before restart:", len(repos))
-		w.Kill()
-		w, err = drv.StartWorker(bin, dir, drv.StartOpts{})
-		if err != nil {
-			return err
-		}
-		cl.W = w
-		repos, _, _ = cl.Repos()
-		fmt.Println("repos after restart:", len(repos))
-		for r := range repos {
-			fmt.Println("  ", r[:8])
-		}
-		w.Kill()
-		c.Case("a", true)
-		c.Case("b", true)
-		return nil
-	})
+	}
+	return nil
 }
